@@ -1,9 +1,127 @@
-(* C08 - provisional: replaced by the full theorem list once Proofs.v is assembled. *)
-From SV Require Import Lib.Base C08.Model C08.Ghost C08.SimProofs C08.BindProofs C08.TreeProofs.
+(* C08 - Call arguments bind to parameters like Python arguments, or fail loudly.
+   Property theorems only: each is closed by `exact` of a lemma proved in
+   Proofs.v (which rests on BindProofs.v, SimProofs.v, TreeProofs.v) and
+   followed by Print Assumptions.
 
-Theorem tree_counts : forall (hv : nat -> bool) (t : pt), wf_shape t = true ->
-  let g := finalG (leaves hv [] t) in
-  frequired (fst g) = req t /\ fallowed (fst g) = nleaves t /\
-  fhasval (fst g) = valued hv t /\ snd g = conflict hv t.
-Proof. exact finalG_tree_l. Qed.
-Print Assumptions tree_counts.
+   Objects: `parse_args extra ps args kw` is the model of suds.argparser.parse_args
+   (Model.v, statement by statement: frame stack, positional-then-keyword value
+   extraction, extra/duplicate argument reporting, callback log).  `pt` is a
+   parameter structure of ANY width and depth (Leaf name optional | Node id
+   is_choice kids), `flatten [] t` its parameter definitions with ancestry as
+   Document.param_defs yields them.  `wf t`: containers are not empty, sibling
+   containers are distinct objects, parameter names are distinct.  `kw_distinct`:
+   a Python dict has distinct keys.  The specification (`req`, `nleaves`,
+   `bind`, `must_reject`, `conflict`, `spec_calls`, `spec_res_ok`) is written
+   from the property text in Model.v part 2. *)
+From SV Require Import Lib.Base C08.Model C08.Proofs.
+
+(* The model's observable result satisfies the executable specification that the
+   harness applies to the implementation's own results: counts = sum over
+   sequences / minimum over choice branches; accepted only when nothing must be
+   rejected; every TypeError class names a reason that is present; nothing is
+   rejected when checking is off. *)
+Theorem model_meets_spec : forall extra t args kw,
+  wf t = true -> kw_distinct kw = true ->
+  spec_res_ok extra t args kw (fst (parse_args extra (flatten [] t) args kw)) = true.
+Proof. exact model_meets_spec_l. Qed.
+Print Assumptions model_meets_spec.
+
+(* the reported required/allowed counts (return value, or the counts printed in
+   "takes R to A positional arguments") equal those implied by the structure *)
+Theorem counts_correct : forall extra t args kw,
+  wf t = true -> kw_distinct kw = true ->
+  forall r a,
+    (fst (parse_args extra (flatten [] t) args kw) = ROk r a \/
+     exists g, fst (parse_args extra (flatten [] t) args kw) = RPositional r a g) ->
+    r = req t /\ a = nleaves t.
+Proof. exact counts_correct_l. Qed.
+Print Assumptions counts_correct.
+
+(* with checking on, a call is rejected EXACTLY when it supplies an unknown
+   keyword, two values for one parameter, too many positional values, or values
+   for more than one branch of a choice *)
+Theorem reject_iff : forall t args kw,
+  wf t = true -> kw_distinct kw = true ->
+  is_ok (fst (parse_args true (flatten [] t) args kw)) = negb (must_reject t args kw).
+Proof. exact reject_iff_l. Qed.
+Print Assumptions reject_iff.
+
+(* the TypeError that is raised names a reason that is really there *)
+Theorem reject_reason_sound : forall extra t args kw,
+  wf t = true -> kw_distinct kw = true ->
+  match fst (parse_args extra (flatten [] t) args kw) with
+  | ROk _ _ => True
+  | RChoice => extra = true /\ conflict (has_value (bind (names t) args kw)) t = true
+  | RMultiple n => extra = true /\ kw_mem n kw = true /\ mem n (firstn (length args) (names t)) = true
+  | RUnexpected n => extra = true /\ kw_mem n kw = true /\ mem n (names t) = false
+  | RPositional _ _ g => extra = true /\ length (names t) < length args /\
+                         length args <= g <= length args + length kw
+  | ROther => False
+  end.
+Proof. exact reject_reason_sound_l. Qed.
+Print Assumptions reject_reason_sound.
+
+(* with extra-argument checking disabled no call is rejected - for ANY list of
+   parameter definitions, well-formed or not *)
+Theorem no_reject_when_off : forall ps args kw,
+  is_ok (fst (parse_args false ps args kw)) = true.
+Proof. exact no_reject_when_off_l. Qed.
+Print Assumptions no_reject_when_off.
+
+(* an accepted call hands every parameter to the binding exactly once, in
+   document order, with its Python-bound value and the right in-choice flag *)
+Theorem callback_once_in_order : forall extra t args kw,
+  wf t = true -> kw_distinct kw = true ->
+  is_ok (fst (parse_args extra (flatten [] t) args kw)) = true ->
+  snd (parse_args extra (flatten [] t) args kw) = spec_calls false t (bind (names t) args kw).
+Proof. exact callback_once_in_order_l. Qed.
+Print Assumptions callback_once_in_order.
+
+(* positional, keyword and mixed calls that bind the same values drive the
+   binding identically (Document.bodycontent builds the request from these
+   callbacks alone) *)
+Theorem call_styles_equal : forall extra t args kw args' kw',
+  wf t = true -> kw_distinct kw = true -> kw_distinct kw' = true ->
+  bind (names t) args kw = bind (names t) args' kw' ->
+  is_ok (fst (parse_args extra (flatten [] t) args kw)) = true ->
+  is_ok (fst (parse_args extra (flatten [] t) args' kw')) = true ->
+  snd (parse_args extra (flatten [] t) args kw) = snd (parse_args extra (flatten [] t) args' kw').
+Proof. exact call_styles_equal_l. Qed.
+Print Assumptions call_styles_equal.
+
+(* rpc bindings (RPC.bodycontent) do not run the parser.  The full statement
+   "an rpc call is rejected iff must_reject_flat" is FALSE of the faithful model
+   (finding C08:rpc-no-argument-check); what holds: a call that needs no
+   rejection is bound like a Python call and sent ... *)
+Theorem rpc_binds_like_python_partial : forall ns args kw,
+  must_reject_flat ns args kw = false ->
+  rpc_values ns args kw 0 = bind ns args kw /\ fst (rpc_outcome ns args kw) = CSent.
+Proof. exact rpc_binds_like_python_l. Qed.
+Print Assumptions rpc_binds_like_python_partial.
+
+(* ... and a call with a surplus positional value and an unknown keyword is sent too *)
+Theorem rpc_reject_refuted : exists ns args kw,
+  must_reject_flat ns args kw = true /\ fst (rpc_outcome ns args kw) = CSent.
+Proof. exact rpc_reject_refuted_l. Qed.
+Print Assumptions rpc_reject_refuted.
+
+(* non-vacuity: the hypotheses are satisfiable and every outcome class occurs *)
+Definition ex_tree : pt :=
+  Node 1 false [Leaf 1 false; Leaf 2 true;
+                Node 2 true [Leaf 3 false; Node 3 false [Leaf 4 false; Leaf 5 true]];
+                Leaf 6 false].
+
+Example c08_nonvacuous :
+  wf ex_tree = true /\ req ex_tree = 3 /\ nleaves ex_tree = 6 /\
+  fst (parse_args true (flatten [] ex_tree) [Some 1; Some 2] [(3, Some 3); (6, Some 6)]) = ROk 3 6 /\
+  fst (parse_args true (flatten [] ex_tree) [Some 1; None; Some 3; Some 4] []) = RChoice /\
+  fst (parse_args false (flatten [] ex_tree) [Some 1; None; Some 3; Some 4] []) = ROk 3 6 /\
+  fst (parse_args true (flatten [] ex_tree) [Some 1] [(1, Some 9)]) = RMultiple 1 /\
+  fst (parse_args true (flatten [] ex_tree) [Some 1] [(9, None)]) = RUnexpected 9 /\
+  fst (parse_args true (flatten [] ex_tree)
+         [Some 1; None; None; None; None; Some 6; Some 7] []) = RPositional 3 6 7 /\
+  must_reject ex_tree [Some 1; Some 2] [(3, Some 3); (6, Some 6)] = false /\
+  snd (parse_args true (flatten [] ex_tree) [Some 1] [(4, Some 4)]) =
+    [(1, false, Some 1); (2, false, None); (3, true, None); (4, true, Some 4); (5, true, None);
+     (6, false, None)].
+Proof. repeat split; reflexivity. Qed.
